@@ -1099,6 +1099,11 @@ func (s *TreeShapeListener) EnterHttp_path_var_with_type(ctx *parser.Http_path_v
 			type1.Constraint = []*sysl.Type_Constraint{constraints}
 		}
 	case ctx.Reference() != nil:
+		// the reference callbacks fill in the entry of the last field name; whatever was declared just
+		// before (a parameter list, a union, an alias) may have left no map to put it in
+		if s.typemap == nil {
+			s.typemap = map[string]*sysl.Type{}
+		}
 		s.fieldname = append(s.fieldname, var_name)
 		type1 = &sysl.Type{}
 		s.typemap[s.fieldname[len(s.fieldname)-1]] = type1
